@@ -37,10 +37,9 @@ impl CanonicalHuffmanDecoder {
         let mut input_code = 0;
 
         for &len in &self.sorted_lens {
-            input_code <<= len - prev_len;
-
+            // `read_i32` fails for a read of more than 31 bits, so the shift below cannot overflow.
             let b = reader.read_i32(len - prev_len)?;
-            input_code |= b;
+            input_code = (input_code << (len - prev_len)) | b;
 
             let entry = self.code_book_by_len[&len]
                 .iter()
@@ -69,17 +68,23 @@ fn build_canonical_code_book(alphabet: &[i32], bit_lens: &[u32]) -> CodeBook {
 
     let mut code_book = CodeBook::with_capacity(sorted_alphabet.len());
 
-    let mut code = 0;
-    let mut prev_bit_len = *sorted_alphabet[0].1;
+    // An empty alphabet has an empty code book: decoding fails with "could not find symbol".
+    let Some(&(_, &first_bit_len)) = sorted_alphabet.first() else {
+        return code_book;
+    };
+
+    let mut code: i32 = 0;
+    let mut prev_bit_len = first_bit_len;
 
     for (&symbol, &bit_len) in sorted_alphabet {
         if bit_len > prev_bit_len {
-            code <<= bit_len - prev_bit_len;
+            // The bits shifted out of the code are lost, as they are for a smaller shift.
+            code = code.checked_shl(bit_len - prev_bit_len).unwrap_or(0);
         }
 
         code_book.insert(symbol, (code, bit_len));
 
-        code += 1;
+        code = code.wrapping_add(1);
         prev_bit_len = bit_len;
     }
 
